@@ -53,37 +53,37 @@ ASSUMPTIONS = [
 ]
 FLOORS = {
     "quick": {
-        "programs": 60,
-        "repeat_checks": 300,
-        "history_runs": 180,
-        "fresh_closure_checks": 150,
-        "other_avals_checks": 40,
-        "transform_lane_checks": 1200,
-        "distinct_key_leaf_checks": 300,
-        "subkey_log_checks": 300,
-        "subkeys_logged": 2000,
-        "stack_checks": 1000,
-        "counter_checks": 300,
-        "fault_injections": 70,
-        "thunk_probes": 70,
+        "programs": 72,
+        "repeat_checks": 450,
+        "history_runs": 200,
+        "fresh_closure_checks": 170,
+        "other_avals_checks": 60,
+        "transform_lane_checks": 1100,
+        "distinct_key_leaf_checks": 280,
+        "subkey_log_checks": 450,
+        "subkeys_logged": 2500,
+        "stack_checks": 1800,
+        "counter_checks": 600,
+        "fault_injections": 90,
+        "thunk_probes": 90,
     },
     "thorough": {
-        "programs": 300,
-        "repeat_checks": 3000,
-        "history_runs": 2000,
-        "fresh_closure_checks": 1500,
+        "programs": 380,
+        "repeat_checks": 4300,
+        "history_runs": 2400,
+        "fresh_closure_checks": 1900,
         "other_avals_checks": 500,
-        "transform_lane_checks": 6000,
-        "distinct_key_leaf_checks": 1500,
-        "subkey_log_checks": 3000,
-        "subkeys_logged": 20000,
-        "stack_checks": 8000,
-        "counter_checks": 3000,
-        "fault_injections": 500,
-        "thunk_probes": 500,
+        "transform_lane_checks": 5000,
+        "distinct_key_leaf_checks": 1200,
+        "subkey_log_checks": 4300,
+        "subkeys_logged": 25000,
+        "stack_checks": 15000,
+        "counter_checks": 4000,
+        "fault_injections": 600,
+        "thunk_probes": 600,
     },
 }
-TIMEOUT_S = {"quick": 900, "thorough": 3600}
+TIMEOUT_S = {"quick": 1800, "thorough": 5400}  # watchdog only (shared, loaded machine); budget is ~2 / ~12 min
 
 NKEYS = 8
 ULPS_C = 16  # continuous leaves, scaled by max(1, |leaf|max)
@@ -139,6 +139,7 @@ def plan(tier, seed):
                 "hist": hist,
                 "jit_first": bool(rng.random() < 0.25),
                 "kseed": int(rng.integers(0, 2**31 - 1)),
+                "legacy_key": bool(rng.random() < 0.15),
             }
         )
     for r in range(2 if tier == "quick" else 8):
@@ -292,12 +293,25 @@ def _same_bits(e0, e1):
     return None
 
 
+def _keys(case):
+    """NKEYS keys; typed (jax.random.key) or legacy raw uint32 (jax.random.PRNGKey)."""
+    jax = _W["jax"]
+    if case.get("legacy_key"):
+        return jax.random.split(jax.random.PRNGKey(case["kseed"]), NKEYS)
+    return jax.random.split(jax.random.key(case["kseed"]), NKEYS)
+
+
 def _feature(spec):
     return "held-sample_binder" if spec.get("held0") else "tfp-sites"
 
 
 def _base_detail(case):
-    return {"spec": case["spec"], "kseed": case["kseed"], "x_variant": case["spec"]["x"]}
+    return {
+        "spec": case["spec"],
+        "kseed": case["kseed"],
+        "key": "jax.random.PRNGKey (uint32)" if case.get("legacy_key") else "jax.random.key (typed)",
+        "x_variant": case["spec"]["x"],
+    }
 
 
 def _check_stack(ctx, ev, detail, when):
@@ -452,7 +466,7 @@ def _run_history(ctx, case, h, f_long, sf_held):
         guarded(lambda: sf_held(k1, *a, **kw), "held seed(f), other key")
         guarded(lambda: seed(f_long)(k2, *a, **kw), "new seed(f), other key")
     elif kind == "same-program-other-avals":
-        key0 = jax.random.key(case["kseed"])
+        key0 = _keys(case)[0]
         feat = _feature(spec)
         for v in h["variants"]:
             a, kw = P.make_call(spec, v)
@@ -463,22 +477,36 @@ def _run_history(ctx, case, h, f_long, sf_held):
             ctx.count("other_avals_checks")
             d2 = {**detail, "x_variant_called": v}
             if e_fresh.raised is not None and e_long.raised is not None:
-                # the program is not accepted at these avals at all: outside the claim
-                ctx.count("other_avals_rejected_by_both")
+                # every generated program is polymorphic in the shape of x (the first site maps over it,
+                # everything else reads a scalar summary), so a rejection is state left by earlier calls
+                ctx.violation(
+                    f"other-avals|{feat}|both-closures-raise-at-other-avals",
+                    {**d2, "called_first_at": spec["x"], **e_long.raised.brief()},
+                )
                 continue
+            # one mechanism key: what a closure that was already called at other avals returns is not
+            # what a fresh closure of the same program returns (symptom in the detail)
+            okey = f"other-avals|{feat}|long-lived-closure-disagrees-with-fresh-closure"
             if e_long.raised is not None or e_fresh.raised is not None:
                 bad = e_long if e_long.raised is not None else e_fresh
-                who = "long-lived-closure" if e_long.raised is not None else "fresh-closure"
+                who = "long-lived closure" if e_long.raised is not None else "fresh closure"
                 ctx.violation(
-                    f"other-avals|{feat}|{who}-raises-other-returns",
-                    {**d2, **bad.raised.brief()},
+                    okey,
+                    {**d2, "symptom": f"{who} raises, the other returns", "called_first_at": spec["x"], **bad.raised.brief()},
                 )
                 continue
             diff = _same_bits(e_fresh, e_long)
             if diff is not None:
                 ctx.violation(
-                    f"other-avals|{feat}|long-lived-closure-differs-from-fresh-closure",
-                    {**d2, **{k: v_ for k, v_ in diff.items()}, "first_is": "fresh", "second_is": "long-lived"},
+                    okey,
+                    {
+                        **d2,
+                        "symptom": "both return, outputs differ",
+                        "called_first_at": spec["x"],
+                        **diff,
+                        "first_is": "fresh closure",
+                        "second_is": "long-lived closure",
+                    },
                 )
     elif kind == "fault":
         _inject_fault(ctx, h["fault"], detail)
@@ -685,8 +713,10 @@ def _run_program(case, ctx):
     f_long = P.build(spec)
     sf_held = seed(f_long)
     a, kw = P.make_call(spec)
-    keys = jax.random.split(jax.random.key(case["kseed"]), NKEYS)
+    keys = _keys(case)
     key0 = keys[0]
+    if case.get("legacy_key"):
+        ctx.count("feature:legacy-uint32-key")
     base = _base_detail(case)
 
     jitted = {}
